@@ -194,4 +194,21 @@ theorem C14_source_skeletons_5 :
     Gen.Skel.Store_SyncBackup = Expected.Skel.Store_SyncBackup :=
   ⟨rfl, rfl⟩
 
+/-- A restore from the backup replaces the database under its write lock — facts proved by
+    `decide` about the skeleton of `restoreDBFromBackup` regenerated from store.go: the snapshot is
+    fetched first, the write lock is taken before recovery, recovery before the snapshot file is
+    written, the file is written before it is applied, and the high-water mark moves after that. -/
+theorem C14_restore_applies_the_snapshot_under_the_write_lock :
+    let ix (sk : List (String × String)) (x : String × String) (d : Nat) := (sk.findIdx? (· == x)).getD d
+    let t := Gen.Skel.Store_restoreDBFromBackup
+    ix t ("call", "s.BackupClient.FetchSnapshot") 1000 < ix t ("call", "s.CreateDBIfNotExists") 0 ∧
+    ix t ("call", "s.CreateDBIfNotExists") 1000 < ix t ("call", "db.AcquireWriteLock") 0 ∧
+    ix t ("call", "db.AcquireWriteLock") 1000 < ix t ("defer", "guard.Unlock") 0 ∧
+    ix t ("defer", "guard.Unlock") 1000 < ix t ("call", "db.recover") 0 ∧
+    ix t ("call", "db.recover") 1000 < ix t ("call", "db.WriteLTXFileAt") 0 ∧
+    ix t ("call", "db.WriteLTXFileAt") 1000 < ix t ("call", "db.ApplyLTXNoLock") 0 ∧
+    ix t ("call", "db.ApplyLTXNoLock") 1000 < ix t ("call", "db.SetHWM") 0 ∧
+    ix t ("call", "db.SetHWM") 1000 < ix t ("return", "return newPos, nil") 0 := by
+  decide
+
 end LiteFSVerif.C14
